@@ -111,6 +111,13 @@ type Engine struct {
 	fnsSeen      map[string]bool
 	debug        bool
 	inInit       bool
+	ufParent     map[int32]int32
+	multiConj    map[int32][]*Term
+	localHits    int
+	varsMemo     map[int32][]int32
+	ufIDs        map[string]int32
+	qcache       map[string]cachedQuery
+	qhits        int
 	dom          map[int32]byteSet
 	entangled    map[int32]bool
 	ttCache      map[int32]byteSet
@@ -160,6 +167,8 @@ func (e *Engine) resetPath(p Prefix) {
 	e.res = &PathResult{Reached: map[string]bool{}}
 	e.dom = map[int32]byteSet{}
 	e.entangled = map[int32]bool{}
+	e.ufParent = map[int32]int32{}
+	e.multiConj = map[int32][]*Term{}
 	e.solver.NewPath()
 }
 
@@ -202,7 +211,7 @@ func (e *Engine) assume(t *Term) {
 	}
 	e.pc = append(e.pc, t)
 	e.noteAssumed(t)
-	e.solver.Assert(t)
+	e.link(t)
 }
 
 // ensureModel makes sure e.model satisfies the path condition.
@@ -210,7 +219,7 @@ func (e *Engine) ensureModel() {
 	if e.modelOK {
 		return
 	}
-	v, m := e.solver.Check(nil, true)
+	v, m := e.query(nil)
 	switch v {
 	case Sat:
 		e.setModel(m)
@@ -246,13 +255,18 @@ func (e *Engine) decide(c *Term) bool {
 	if e.unary(c) {
 		return e.decideUnary(c)
 	}
+	if !e.noByteDom && !c.multi && c.sv != nil && c.sv.w == 8 {
+		if side, done := e.decideEntangled(c); done {
+			return side
+		}
+	}
 	mv, ok := e.evalUnder(c)
 	var side bool
 	if ok {
 		side = mv != 0
 	} else {
 		// model cannot predict: ask the solver for the true side first
-		v, m := e.solver.Check(c, true)
+		v, m := e.query(c)
 		switch v {
 		case Sat:
 			side = true
@@ -273,7 +287,7 @@ func (e *Engine) decide(c *Term) bool {
 	if side {
 		other = e.ts.BNot(c)
 	}
-	v, m := e.solver.Check(other, true)
+	v, m := e.query(other)
 	switch v {
 	case Sat:
 		nt := make([]int32, len(e.trace)+1)
@@ -300,8 +314,8 @@ func (e *Engine) decideUnary(c *Term) bool {
 	tset, fset := d.and(tt), d.and(tt.not())
 	e.fastDecisions++
 	if e.xcheck {
-		v1, _ := e.solver.Check(c, false)
-		v2, _ := e.solver.Check(e.ts.BNot(c), false)
+		v1, _ := e.query(c)
+		v2, _ := e.query(e.ts.BNot(c))
 		if (v1 == Sat) != !tset.empty() || (v2 == Sat) != !fset.empty() {
 			panic(fmt.Sprintf("xcheck: byte-domain verdict differs from solver for term %d: solver %v/%v, dom %v/%v", c.id, v1, v2, !tset.empty(), !fset.empty()))
 		}
@@ -335,6 +349,49 @@ func (e *Engine) decideUnary(c *Term) bool {
 		e.assume(e.ts.BNot(c))
 	}
 	return side
+}
+
+// decideEntangled handles a condition over one 8-bit variable that also
+// occurs in multi-variable conjuncts: the model gives one side; the other side
+// is refuted by an empty domain, or established by local search; otherwise
+// done=false and the SMT solver decides.
+func (e *Engine) decideEntangled(c *Term) (side bool, done bool) {
+	v := c.sv
+	d := e.domOf(v)
+	tt := e.truthTable(c)
+	cur := e.model[v.name] & 0xff
+	if !d.has(cur) {
+		return false, false
+	}
+	side = tt.has(cur)
+	other := d.and(tt.not())
+	if !side {
+		other = d.and(tt)
+	}
+	var om Model
+	feasible := false
+	if !other.empty() {
+		m, ok := e.localSearch(v, other)
+		if !ok {
+			return false, false
+		}
+		om, feasible = m, true
+		e.localHits++
+	}
+	e.fastDecisions++
+	if feasible {
+		nt := make([]int32, len(e.trace)+1)
+		copy(nt, e.trace)
+		nt[len(e.trace)] = int32(b2u(!side))
+		e.res.NewPrefixes = append(e.res.NewPrefixes, Prefix{Trace: nt, Model: om})
+	}
+	e.trace = append(e.trace, int32(b2u(side)))
+	if side {
+		e.assume(c)
+	} else {
+		e.assume(e.ts.BNot(c))
+	}
+	return side, true
 }
 
 // choose makes an n-way concrete (skeleton / scheduler) decision.
@@ -392,7 +449,7 @@ func (e *Engine) concretize(t *Term) uint64 {
 		}
 		mv, ok := e.evalUnder(t)
 		if !ok {
-			vd, m := e.solver.Check(nil, true)
+			vd, m := e.query(nil)
 			if vd != Sat {
 				e.res.Unknowns++
 				panic(pathEnd{"solver-unknown"})
@@ -417,7 +474,7 @@ func (e *Engine) concretize(t *Term) uint64 {
 				vd, m = Sat, e.modelWith(eq.sv, fset.first())
 			}
 		} else {
-			vd, m = e.solver.Check(e.ts.BNot(eq), true)
+			vd, m = e.query(e.ts.BNot(eq))
 		}
 		if vd == Sat {
 			nt := make([]int32, len(e.trace)+4)
@@ -470,7 +527,7 @@ func (e *Engine) doAssume(c *Term) {
 		e.assume(c)
 		return
 	}
-	v, m := e.solver.Check(c, true)
+	v, m := e.query(c)
 	switch v {
 	case Sat:
 		e.assume(c)
@@ -489,11 +546,11 @@ func (e *Engine) doAssert(c *Term, obligation string) {
 	}
 	key := obligation + "#" + e.classTag
 	v, m := Unsat, Model(nil)
+	e.ensureModel()
 	if c.IsFalse() {
-		e.ensureModel()
 		v, m = Sat, e.model
 	} else {
-		v, m = e.solver.Check(e.ts.BNot(c), true)
+		v, m = e.query(e.ts.BNot(c))
 	}
 	switch v {
 	case Sat:
@@ -511,7 +568,7 @@ func (e *Engine) doAssert(c *Term, obligation string) {
 			e.assume(c)
 			return
 		}
-		v2, m2 := e.solver.Check(c, true)
+		v2, m2 := e.query(c)
 		switch v2 {
 		case Sat:
 			e.assume(c)
